@@ -37,13 +37,15 @@ func genC14Shared(rng *simrt.Rand, tier string) *Case {
 		case "had_changed", "changed_col":
 			ig := rng.Bool(0.5)
 			a.Ign = &ig
+		case "acc_sum", "acc_count", "acc_avg", "acc_min", "acc_max":
+			a.Cond = []string{"", "", "start", "startreset"}[rng.Intn(4)]
 		}
 		if rng.Bool(0.6) {
 			a.When = []string{"gt2", "ge0"}[rng.Intn(2)]
 		}
 		specs = append(specs, a)
 		sel = append(sel, a.sql())
-		m := map[string]any{"alias": a.Alias, "fn": a.Fn, "off": a.Off, "part": a.Part, "when": a.When}
+		m := map[string]any{"alias": a.Alias, "fn": a.Fn, "off": a.Off, "part": a.Part, "when": a.When, "cond": a.Cond}
 		if a.Def != nil {
 			m["def"] = *a.Def
 		}
@@ -99,6 +101,7 @@ type c14In struct {
 	Part  string
 	ID    string
 	V     any
+	W     any
 	When  bool
 }
 
@@ -164,7 +167,7 @@ func runC14Shared(e *Env) {
 		v := row["v"]
 		for fi, a := range specs {
 			ops = append(ops, porcupine.Operation{ClientId: rec.Client, Call: int64(2 * rec.Inv), Return: int64(2*rec.Ret + 1),
-				Input:  c14In{Field: fi, Part: pk, ID: id, V: v, When: a.When == "" || whenHolds(a.When, v)},
+				Input:  c14In{Field: fi, Part: pk, ID: id, V: v, W: row["w"], When: a.When == "" || whenHolds(a.When, v)},
 				Output: rec.Out[a.Alias]})
 		}
 	}
@@ -203,6 +206,7 @@ func runC14Shared(e *Env) {
 					want = st.last
 				}
 			} else {
+				st.w = i.W
 				want = specs[i.Field].apply(&st, i.V)
 				st.last, st.hasLast = want, true
 			}
